@@ -275,6 +275,28 @@ class Ctx:
         self.log(f"{sub}{tag}: {nlines} requests, {mism} mismatches")
         return mism
 
+    def run_corpus(self, sub, **kw):
+        """Replay /verif/corpus/<prop>/*.txt (minimised past failures and hand-picked
+        seeds) against the current implementation before the generated cases."""
+        d = os.path.join(VERIF, "corpus", self.prop)
+        if not os.path.isdir(d):
+            return 0
+        lines = []
+        for fn in sorted(os.listdir(d)):
+            if fn.endswith(".txt"):
+                lines += [l for l in open(os.path.join(d, fn)).read().splitlines() if l.strip() and not l.startswith("#")]
+        if not lines:
+            return 0
+        path = os.path.join(self.dir, sub + "-corpus.in")
+        open(path, "w").write("\n".join(lines) + "\n")
+        saved, self.replay = self.replay, None
+        try:
+            r = self.differential(sub, len(lines), extra=["-replay", path], tag="-corpus", **kw)
+        finally:
+            self.replay = saved
+        self.coverage["corpus_cases"] = len(lines)
+        return r
+
     # -------------------------------------------------------------- verdict
     def add_concrete(self, key, detail):
         self.concrete.append(dict(detail, key=key))
